@@ -56,9 +56,10 @@ Record cfg (T : Type) := mk_cfg {
   c_commands : list (list Z * list Z);   (* System.commands *)
   c_bad : list Z; c_good_prefix : list Z;
   c_timer : Z;                            (* timer_value, in clock ticks *)
-  c_gap : T }.                            (* program_track_timegap *)
+  c_gap : T;                              (* program_track_timegap *)
+  c_start_check : bool }.                 (* _programTrack refuses a non-finite explicit start time *)
 Arguments c_servos {T}. Arguments c_table {T}. Arguments c_sys_layout {T}. Arguments c_commands {T}.
-Arguments c_bad {T}. Arguments c_good_prefix {T}. Arguments c_timer {T}. Arguments c_gap {T}. Arguments mk_cfg {T}.
+Arguments c_bad {T}. Arguments c_good_prefix {T}. Arguments c_timer {T}. Arguments c_gap {T}. Arguments c_start_check {T}. Arguments mk_cfg {T}.
 
 (* program-track bookkeeping of a servo: what _programTrack maintains and get_status reads *)
 Record trk (T : Type) := mk_trk {
@@ -591,7 +592,8 @@ Definition pt_stage1 (e : env T) (tk : trk T) (tid pid : Z) (st : list Z) : ptre
   else match pyfloat orc st with
        | None => inl (PtBad tk)
        | Some t0 =>
-           if nlt ops t0 now then inl (PtBad tk)
+           if c_start_check cf && negb (nfinite ops t0) then inl (PtBad tk)
+           else if nlt ops t0 now then inl (PtBad tk)
            else if negb (pid =? 0) then inl (PtBad tk)
            else inr (Some t0, mk_trk (Some tid) (Some t0) (tk_pid tk) [] (tk_pt tk))
        end.
